@@ -13,7 +13,7 @@ import ast
 from engine.loader import AnalysisError, src, walk_all, walk_own
 
 PID = "C05"
-EXPLANATION = (
+EXPLANATION_OLD = (
     "Structural analysis of the fuse / unfuse layout contract over the ASTs. (1) BlockIndex.subinfo is optional (None for "
     "indices that were never fused, and for single-axis groups, which the fuse plan passes through untouched): every "
     "`<index>.subinfo.<attr>` dereference in the package must be dominated by a not-None test of the same access path, or by "
@@ -26,7 +26,26 @@ EXPLANATION = (
     "(4) The fused direction is that of the group's first axis, sub-charges are signed relative to it, and groups are inserted "
     "at the minimum fused axis. Where elements land and bit-exact round trips are not decided."
 )
-ASSUMPTIONS = ["python dicts preserve insertion order"]
+EXPLANATION = (
+    "Two analyses. (A) R05.1, a guard (null-dereference) analysis over the ASTs: BlockIndex.subinfo is optional (None for indices "
+    "that were never fused and for single-axis groups, which the fuse plan passes through untouched); every `<index>.subinfo.<attr>` "
+    "dereference in the package must be dominated by a not-None test of the same access path or by the singlet-group guard (which the "
+    "checker first validates against the plan generator); documented-precondition sites are a frozen table. (B) L1-L4, abstract "
+    "evaluation of the layout contract: the checker's evaluator interprets fuse (both strategies), unfuse and unfuse_all from the "
+    "current source on a bounded family of arrays (symmetries Z2, U1, Z2Z2, plus U1U1 and Z4 in the thorough tier; ranks 2-4; "
+    "several direction patterns; identity and non-identity charge; full and sparse sector sets; abelian and fermionic with pending "
+    "signs; 3-7 groupings per rank including single-axis groups, permuted and non-adjacent axes) whose block contents are shaped "
+    "tokens. A normalising token algebra (concatenation, zero-fill + slice assignment, slicing, reshape, transpose and negation "
+    "are pushed to the pieces) turns every fused block into a map {window -> source block} and every block read back by unfuse "
+    "into the source block itself, so the contract is compared as data: each original block lands exactly once at the window that "
+    "the fused index's own sub-index table assigns (offsets = running sums in stored order), in the plan's axis order; both "
+    "strategies agree; the stored order of sectors is irrelevant; the fused direction is that of the group's first axis and the "
+    "fused charge the signed combination; the round trip returns every original block as itself (token identity), extras zero, "
+    "indices restored; for fermionic arrays the effective signs equal those of the fermionic transpose. Positions WITHIN a window "
+    "are those of the backend's row-major reshape of the transposed block (assumed). The verdict covers exactly the enumerated cases."
+)
+ASSUMPTIONS = ["python dicts preserve insertion order", "backend transpose/reshape/concatenate/zeros behave as numpy's (row-major)",
+               "the evaluator implements the Python semantics of the sub-language the library uses (anything else fails closed)"]
 
 DEREF_EXEMPT = {
     "AbelianArray.unfuse": "documented precondition: the axis to unfuse must carry sub-index information",
@@ -165,99 +184,23 @@ def _always_returns(stmts):
     return False
 
 
-def check_consumers(prog, ctx):
-    rid = "R05.2"
-    consumers = {
-        "symmray.abelian_core:_fuse_blocks_via_insert": "insert",
-        "symmray.abelian_core:_fuse_blocks_via_concat": "concat",
-        "symmray.abelian_core:AbelianArray.unfuse": "unfuse",
-    }
-    for fq, label in consumers.items():
-        f = prog.func(fq)
-        uses = [n for n in walk_all(f.node) if isinstance(n, ast.Attribute) and n.attr == "extents"]
-        ctx.check(bool(uses), rid, f, f.node, "no use of extents", f"{label} reads the layout from subinfo.extents")
-        reorder = [c for c in walk_all(f.node) if isinstance(c, ast.Call) and src(c.func) in ("sorted", "reversed")
-                   and any(isinstance(x, (ast.Name, ast.Attribute)) and "extent" in src(x) for x in ast.walk(c))]
-        ctx.check(not reorder, rid, f, reorder[0] if reorder else f.node, src(reorder[0]) if reorder else "none",
-                  f"{label} traverses each extent in its native (stored) order")
-    ins = prog.func("symmray.abelian_core:_fuse_blocks_via_insert")
-    ok = any(isinstance(c, ast.Call) and src(c.func) == "zip" and len(c.args) == 2 and src(c.args[1]) == f"accum_for_split({src(c.args[0])}.values())"
-             for c in walk_all(ins.node))
-    ctx.check(ok, rid, ins, ins.node, "offsets", "insert: offsets are the running sums of the extent's sizes, zipped with its keys")
-    unf = prog.func("symmray.abelian_core:AbelianArray.unfuse")
-    ok = any(isinstance(c, ast.Call) and src(c.func) == "accum_for_split" and "charge_extent.values()" in src(c.args[0])
-             for c in walk_all(unf.node))
-    ok = ok and any(isinstance(c, ast.Call) and src(c.func) == "zip" and src(c.args[0]) == "charge_extent" for c in walk_all(unf.node))
-    ctx.check(ok, rid, unf, unf.node, "offsets", "unfuse: slices are the running sums of the extent's sizes, zipped with its keys")
-    con = prog.func("symmray.abelian_core:_fuse_blocks_via_concat")
-    ok = any(isinstance(n, (ast.ListComp, ast.GeneratorExp)) and src(n.generators[0].iter) == "extent" for n in walk_all(con.node))
-    ctx.check(ok, rid, con, con.node, "order", "concat: sub-blocks are concatenated in the extent's key order")
-    acc = prog.func("symmray.abelian_core:accum_for_split")
-    ok = any(isinstance(n, ast.For) and src(n.iter) == "sizes" for n in walk_own(acc.node))
-    ctx.check(ok, rid, acc, acc.node, "accum", "accum_for_split accumulates in the order given")
-    ctx.minimum(rid, 10, "three consumers")
-
-
-def check_canonical(prog, ctx):
-    rid = "R05.3"
-    calc = prog.func("symmray.abelian_core:calc_fuse_block_info")
-    # the dict that becomes `extents` is filled in a loop over sorted(...)
-    loops = [n for n in ast.walk(calc.node) if isinstance(n, ast.For)
-             and any(isinstance(s, ast.Assign) and isinstance(s.targets[0], ast.Subscript) and "extent" in src(s.targets[0].value)
-                     for b in n.body for s in ast.walk(b))]
-    inner = [n for n in loops if "subinfos" in src(n.iter)]
-    ctx.need(len(inner) == 1, "calc_fuse_block_info: loop filling the extents not found")
-    it = inner[0].iter
-    ctx.check(isinstance(it, ast.Call) and src(it.func) == "sorted", rid, calc, inner[0], src(it),
-              "extents are filled by iterating the collected sub-sectors in sorted order (canonical layout)")
-    # the extents dict reaches SubIndexInfo unchanged
-    ok = any(isinstance(c, ast.Call) and src(c.func) == "SubIndexInfo" and any(k.arg == "extents" and src(k.value) == "extents[g]" for k in c.keywords)
-             for c in ast.walk(calc.node))
-    ctx.check(ok, rid, calc, calc.node, "SubIndexInfo(extents=extents[g])", "the sorted table is what the fused index carries")
-    # sub-sectors accumulated in perm order
-    perm_loops = [n for n in ast.walk(calc.node) if isinstance(n, ast.For) and src(n.iter) == "perm"]
-    ok = len(perm_loops) == 1 and any(isinstance(c, ast.Call) and src(c.func) == "subsectors[g].append" for c in ast.walk(perm_loops[0]))
-    ctx.check(ok, rid, calc, perm_loops[0] if perm_loops else calc.node, "perm loop",
-              "sub-sectors are accumulated while iterating the plan's permutation (same order on both operands of a contraction)")
-    grp = prog.func("symmray.abelian_core:calc_fuse_group_info")
-    perm_def = [a for a in walk_own(grp.node) if isinstance(a, ast.Assign) and src(a.targets[0]) == "perm"]
-    ok = len(perm_def) == 1 and "for g in axes_groups for ax in g" in src(perm_def[0].value)
-    ctx.check(ok, rid, grp, grp.node, "perm", "the permutation lists each group's axes in the order the caller gave them")
-    ctx.minimum(rid, 4, "sorted fill, carried table, perm accumulation, perm definition")
-
-
-def check_direction(prog, ctx):
-    rid = "R05.4"
-    grp = prog.func("symmray.abelian_core:calc_fuse_group_info")
-    ok = any(isinstance(c, ast.Call) and src(c.func) == "group_duals.append" and src(c.args[0]) == "duals[gaxes[0]]"
-             for c in ast.walk(grp.node))
-    ctx.check(ok, rid, grp, grp.node, "group dual", "a fused group takes the direction of its first axis")
-    pos = [a for a in walk_own(grp.node) if isinstance(a, ast.Assign) and src(a.targets[0]) == "position"]
-    ok = len(pos) == 1 and src(pos[0].value).replace(" ", "") == "min((min(gaxes)forgaxesinaxes_groups))"
-    ctx.check(ok, rid, grp, grp.node, "position", "groups are inserted at the minimum fused axis")
-    calc = prog.func("symmray.abelian_core:calc_fuse_block_info")
-    sg = [a for a in ast.walk(calc.node) if isinstance(a, ast.Assign) and src(a.targets[0]) == "signed_c" and isinstance(a.value, ast.Call)]
-    ok = len(sg) == 1 and src(sg[0].value) == "sign(c, group_duals[g] != ix.dual)"
-    ctx.check(ok, rid, calc, sg[0] if sg else calc.node, "signed charge",
-              "a sub-charge enters the fused charge with a sign iff its direction differs from the group's")
-    bi = [c for c in ast.walk(calc.node) if isinstance(c, ast.Call) and src(c.func) == "BlockIndex"]
-    ok = len(bi) == 1 and any(k.arg == "dual" and src(k.value) == "group_duals[g]" for k in bi[0].keywords)
-    ctx.check(ok, rid, calc, calc.node, "fused index direction", "the fused index is created with the group's direction")
-    ok = any(isinstance(a, ast.Assign) and src(a.targets[0]) == "new_charge" and src(a.value) == "combine(*grouped_charges[g])"
-             for a in ast.walk(calc.node))
-    ctx.check(ok, rid, calc, calc.node, "fused charge", "the fused charge is the combination of the signed sub-charges")
-    ctx.minimum(rid, 5, "direction, position, sign, index, charge")
-
-
 def run(prog, ctx):
+    from rules.sem_layout import check_layout
+
     ctx.rule("R05.1", "every `.subinfo.<attr>` dereference is dominated by a not-None test of the same path or by the (validated) "
              "singlet-group guard; precondition sites are a frozen table")
-    ctx.rule("R05.2", "insert, concat and unfuse traverse extents[charge] in native dict order with accum_for_split offsets")
-    ctx.rule("R05.3", "extents are filled in sorted sub-sector order; sub-sectors are accumulated in perm order")
-    ctx.rule("R05.4", "fused direction = first axis of the group; signed sub-charges; insertion at the minimum fused axis")
+    ctx.rule("L1", "fused array: axis order (groups where the smallest fused axis was, in the given order), direction of each fused index = "
+                   "that of the group's first axis, sub-indices = the original indices in group order, fused sectors = signed combinations")
+    ctx.rule("L2", "every original block lands exactly once at the window the fused index's OWN sub-index table assigns to its sub-sector, "
+                   "transposed to the plan's axis order; strategies insert and concat give identical results; the result does not depend on "
+                   "the order in which the sectors are stored")
+    ctx.rule("L3", "unfuse_all(fuse(x)) and unfusing one axis at a time (either order) give x in the plan's axis order: every block is the "
+                   "original block (token identity), any extra block is zero, the indices are the original ones")
+    ctx.rule("L4", "fermionic arrays: the same windows, and after the round trip the effective sign (stored sign x pending sign) of every "
+                   "block equals that of the fermionic transpose to the plan's axis order")
     for q, why in DEREF_EXEMPT.items():
         ctx.fact(f"{q}: {why}")
     check_deref(prog, ctx)
-    check_consumers(prog, ctx)
-    check_canonical(prog, ctx)
-    check_direction(prog, ctx)
+    n = check_layout(prog, ctx)
+    ctx.extra_coverage = {"fuse_cases_evaluated": n}
+    ctx.minimum("L2", 1, "layout")
